@@ -98,12 +98,20 @@ def check(case):
     seq = [{name: v} for v in vals] if mapping else [O(v, name)
                                                      for v in vals]
     order = case.get('order', 0) % 4
+    opts = TAG_OPTS[case.get('opts', 0) % len(TAG_OPTS)]
+    if case.get('plain'):
+        # a sequence of plain values, summarised as 'item'
+        mapping, name, order = False, 'item', 0
+        seq = list(vals)
+        if 'sort=' in opts or 'no_push_item' in opts:
+            opts = 'reverse' if 'reverse' in opts else ''
     for i, e in enumerate(seq):
+        if case.get('plain'):
+            break
         if mapping:
             e['w'] = wval(i)
         else:
             e.w = wval(i)
-    opts = TAG_OPTS[case.get('opts', 0) % len(TAG_OPTS)]
     if 'nocase' in opts and (case['kind'] != 'str' or None in vals):
         # a comparison function of the author's is only handed real strings
         opts = opts.replace('/nocase/desc', '/cmp/desc').replace('/nocase',
@@ -253,7 +261,8 @@ def strategy():
         st.sampled_from([0.1, 0.25, 1.5, -2.75, 3.3, 1000.1, 0.3, 2.0, 1e6,
                          -0.1, 1e-3]),
         st.floats(-1e4, 1e4, allow_nan=False).map(lambda f: round(f, 4)))
-    strs = st.sampled_from(['a', 'b', 'ab', 'Z', '', 'zz', 'B'])
+    strs = st.sampled_from(['a', 'b', 'ab', 'Z', '', 'zz', 'B', 'ox', 'pear',
+                            'fig', 'Ab', 'abc'])
 
     def lst(el, kind):
         return st.lists(st.one_of(el, el, el, el, none), min_size=1,
@@ -290,7 +299,9 @@ def strategy():
                      st.booleans(), st.integers(0, 13),
                      st.integers(0, 8), st.integers(0, 3)).map(
         lambda t: dict(t[0], mapping=t[1], opts=t[2], name=t[3],
-                       order=t[4]))
+                       order=t[4], plain=[None, None, None, 'values',
+                                          'values'][(t[2] + t[3]) % 5]
+                       if t[0]['kind'] != 'date' else None))
 
 
 def nontrivial(case):
@@ -314,7 +325,13 @@ FIXED = [
 
 
 def fixed_cases():
-    for kind, vals in FIXED:
+    for kind, vals in FIXED + [('str', ['pear', 'fig', 'ox']),
+                               ('str', ['ab', 'b', 'Zz', 'a', 'zz'])]:
+        if kind != 'date':
+            for opts in (0, 5, 7, 8):
+                for plain in ('values',):
+                    yield dict(kind=kind, vals=vals, mapping=False,
+                               opts=opts, name=3, order=0, plain=plain)
         for opts in range(len(TAG_OPTS)):
             for name in (0, 3, 4, 6):
                 for order in range(4):
